@@ -71,6 +71,19 @@ CHECKS = {
              'op_subx) is not covered.',
         technique='CBMC code contracts on C lowered from the real C++ per run',
     ),
+    'C20': dict(
+        category='other',
+        text='Slice, BOUNDED: dumper::dump_charp lowered per run from /repo/dwgrep/dwgrep.cc (with ios_flag_saver\'s real '
+             'constructor/destructor; std::ostream replaced by a small trusted model of insertion, hex, setw, setfill, flags). '
+             'For every byte string of length <= 3 (4 in thorough) over all 256 byte values, the brief rendering is consumed by a '
+             'transcription of the scanner\'s <STRING> rules as exactly one plain literal that decodes to the same bytes (hence '
+             'distinct strings never print alike), the stream\'s formatting state is restored, and the full format writes the bytes '
+             'verbatim. Length 3 covers every adjacency of two escapes (longest scanner rule: 4 chars).',
+        design_ref='DESIGN.md section 4 C20',
+        note='Bounded in string length: not a proof. Trusted: cxx2c lowering; the ostream/isprint model; the hand transcription of '
+             'the flex <STRING> rules. Not covered: named-constant tables, radix rendering of integers, %d %x %o %b, other dump_* functions.',
+        technique='bounded unwinding (CBMC) of C lowered from the real C++ per run against a scanner-model postcondition',
+    ),
 }
 
 NOT_APPLICABLE = {
